@@ -405,9 +405,12 @@ class DictCacheUpdater(CacheUpdater):
         elif type_name in ("blob", "tree"):
             if bzr_key_data is not None:
                 key = type_data = bzr_key_data
-                self.cache.idmap._by_fileid.setdefault(type_data[1], {})[
-                    type_data[0]
-                ] = hexsha
+                by_fileid = (
+                    self.cache.idmap._by_fileid
+                    if type_name == "blob"
+                    else self.cache.idmap._tree_by_fileid
+                )
+                by_fileid.setdefault(type_data[1], {})[type_data[0]] = hexsha
         else:
             raise AssertionError
         entry = (type_name, type_data)
@@ -437,6 +440,7 @@ class DictGitShaMap(GitShaMap):
         """Initialize DictGitShaMap with empty dictionaries."""
         self._by_sha = {}
         self._by_fileid = {}
+        self._tree_by_fileid = {}
         self._by_revid = {}
 
     def lookup_blob_id(self, fileid, revision):
@@ -487,7 +491,7 @@ class DictGitShaMap(GitShaMap):
         Raises:
             KeyError: If the file ID or revision is not found.
         """
-        return self._by_fileid[revision][fileid]
+        return self._tree_by_fileid[revision][fileid]
 
     def lookup_commit(self, revid):
         """Retrieve a Git commit SHA by Bazaar revision ID.
